@@ -141,6 +141,12 @@ func (e *connEnd) Write(p []byte) (int, error) {
 		// writes and shares no mutex with it: it may block before that reader has parked)
 		streamer, exempt := false, false
 		if pe.inflightN >= s.sndWindow {
+			if s.subWindow && verifMutexInPlace && callerIn("(*Server).liveSubscription") {
+				// a subscriber connection (its write mutex is the bubble-aware one, see
+				// sim/seams.go): acknowledgements and messages wait for the window like the
+				// log streamer does
+				streamer = true
+			}
 			switch roleOfCaller() {
 			case "liveaof":
 				streamer = true
